@@ -461,6 +461,16 @@ def flip_lifecycle_case(rows, k=3):
     return out
 
 
+def flip_lifecycle_trace(evs):
+    """canary: a recorded rejection of a validation is turned into an acceptance"""
+    for i in range(len(evs) // 2, len(evs)):
+        e = evs[i]
+        if e["op"]["name"] == "validate" and not e["res"].get("ok"):
+            e["res"] = {"ok": True}
+            return "event %d: a rejected validation reported as accepted" % (i + 1)
+    raise ToolError("canary: no rejected validation in the recorded history")
+
+
 def lifecycle_stage(chk, only_keys):
     """Lifecycle.tla: design invariants over all states (VIEW without the history), every effective behaviour up to the
     tier's depth replayed on the real objects, long simulated behaviours replayed, canary."""
@@ -488,8 +498,22 @@ def lifecycle_stage(chk, only_keys):
     if not seen:
         raise ToolError("Lifecycle simulation emitted no behaviour")
     chk.replay(uniq, tag=".lifesim", prop_driver="LIFE", timeout=3000, vacuity=False, only_keys=only_keys)
+    # direction V: long random histories recorded from live issuers, validated by LifecycleTrace.tla
+    import re as _re
+    before = len(chk.violations)
+    n_ev, n_tr = q(chk, (1500, 1), (4000, 6))
+    record_and_validate(chk, "LIFE", "LifecycleTrace", "LifecycleTrace.cfg", n_ev, n_tr, "lifecycle",
+                        canary=flip_lifecycle_trace, timeout=1200)
+    kept = []
+    for v in chk.violations[before:]:
+        if _re.search(only_keys, v["key"]):
+            kept.append(v)
+        else:
+            chk.extra.setdefault("deviations_belonging_to_other_properties", []).append(v["key"])
+    del chk.violations[before:]
+    chk.violations.extend(kept)
     chk.extra["lifecycle"] = dict(design_states=mc["states"], behaviours_exhaustive=r["cases"], behaviours_simulated=len(seen),
-                                  simulated_depth=24, judged_keys=only_keys)
+                                  simulated_depth=24, judged_keys=only_keys, recorded_traces=n_tr, recorded_events_each=n_ev)
 
 
 @plan("C09")
@@ -519,7 +543,7 @@ def c09(chk):
     chk.replay(md["cases_file"], tag=".md", prop_driver="MD", timeout=1200, vacuity=False, extended=True)
     # composition: histories of generate / purge / issue / validate without faults -- document, key store and key-id
     # store stay in step (judged here); validation verdicts over the same histories are judged by the C02 check
-    lifecycle_stage(chk, r"lifecycle/(generate|purge|issue|attach|detach|panic|[a-z]+/inconsistent_state)")
+    lifecycle_stage(chk, r"lifecycle/(generate|purge|issue|attach|detach|rebase|reset|revoke|unrevoke|panic|[a-z]+/inconsistent_state)")
     chk.level = "model_checking"
     chk.assumptions += ["a failing storage call has no effect and returns an error (the fault model of the property)",
                         "Ed25519/EdDSA only (the key type of the shipped in-memory store)"]
